@@ -241,6 +241,32 @@ def record_obs(tier, rnd):
 """
         obs.append(Ob(f"record.{gname}", build(params, body, setup=SETUP), f"instrument record fields {[n for n, _ in fields]} survive at their struct widths and sit at their documented offsets in the 400-byte record",
                       group="record", shape="Sampler()", symbolic=", ".join(n for n, _ in fields), timeout=300))
+    # names: fixed-width char[22] fields; lengths are shape (concrete), bytes symbolic
+    for ln in ((0, 21, 22, 23, 30) if tier == "quick" else (0, 1, 21, 22, 23, 24, 30, 64)):
+        nsym = min(ln, 3)
+        params = [R(f"c{i}", 1, 255) for i in range(nsym)] or [U8("unused")]
+        # symbolic bytes at the start, at byte 21/22 (the field boundary) when present
+        pos = sorted({0, min(ln - 1, 21), ln - 1} - {-1})[:nsym] if ln else []
+        expr = "bytes([" + ", ".join((f"c{pos.index(i)}" if i in pos else str(65 + i % 26)) for i in range(ln)) + "])"
+        body = f"""
+    s = SMP()
+    nm = {expr}
+    s.instrument_name = nm
+    a = SMP.Sample()
+    a.data = b"ab"
+    a.format = SMP.Format.int8
+    a.channels = SMP.Channels.mono
+    a.name = nm
+    s.samples[2] = a
+    data, t = rt_sampler(s)
+    r0 = rec_of(data, 0)["chdt"]
+    r5 = rec_of(data, 5)["chdt"]
+    if len(r0) != 400 or len(r5) != 44 or bytes(r0[0xfc:0x100]) != b"PMAS" or RF.rd_u16(r0, 0x1c) != 3:
+        return False
+    return t.instrument_name == nm[:22] and t.samples[2].name == nm[:22] and bytes(r0[4:4 + {min(ln, 22)}]) == nm[:22] and bytes(r5[0x12:0x12 + {min(ln, 22)}]) == nm[:22] and t.samples[2].data == b"ab"
+"""
+        obs.append(Ob(f"record.names.{ln}", build(params, body, setup=SETUP), f"instrument and sample names of {ln} bytes: stored in the 22-byte fields (longer names cut), records keep their fixed sizes and later fields their offsets",
+                      group="record", shape=f"name length {ln}", symbolic=f"{nsym} name bytes (non-zero) at the start and at the field boundary", timeout=240))
     # embedded effect
     body = """
     s = SMP()
